@@ -324,7 +324,7 @@ func (cg *caseGen) expr(cx ectx) (*pvcase.Expr, bool) {
 			ws = append(ws, wk{"mshape", 6 * m})
 		}
 		if f.act && f.lab {
-			ws = append(ws, wk{"scshape", 3 * m})
+			ws = append(ws, wk{"scshape", 4 * m})
 		}
 	}
 	sub := cx
@@ -903,14 +903,14 @@ func (cg *caseGen) scopeShape(cx ectx) (*pvcase.Expr, bool) {
 		inner = seqOf(inner, &pvcase.Expr{Kind: pvcase.KAndc}) // a reader inside: sees e2's value
 	}
 	var w *pvcase.Expr
-	switch cg.r.IntN(8) {
+	switch cg.r.IntN(10) {
 	case 0, 1:
 		w = un(pvcase.KOpt, inner)
 	case 2:
 		w = un(pvcase.KStar, inner)
 	case 3:
 		w = un(pvcase.KOpt, un(pvcase.KPlus, inner))
-	case 4:
+	case 4, 8, 9: // (three tenths: the `&( )` frame of the optimized, store-less template rested on a single hit per run)
 		w = seqOf(un(pvcase.KAnd, inner), plain) // the lookahead is followed by the text it looks for
 	case 5:
 		w = seqOf(un(pvcase.KNot, un(pvcase.KNot, inner)), plain)
